@@ -363,6 +363,8 @@ class Implicit:
                     k = self.kinds.kind(fn, n.args[0], n)
                     if k <= allowed:
                         self._record(fn, n, "argument kind %s within the constructor's guard %s" % (sorted(k), sorted(allowed)))
+                    elif fn.module.name.startswith("pydsdl._expression") and self._expression_outcomes_ok():
+                        self._record(fn, n, "every operator outcome over symbolic operands (incl. complex results, zero divisors, non-integers) is a value or an invalid-operand error (expression model, evaluated)")
                     else:
                         out.append(("ext:ValueError", n, "%s(%s) with argument kind %s" % (r.name, norm(n.args[0])[:30], sorted(k))))
                 elif dotted(n.func) == "map" and len(n.args) == 2:
@@ -380,12 +382,12 @@ class Implicit:
                 if name == "int" and n.args:
                     k = self.kinds.kind(fn, n.args[0], n)
                     if not (k <= {"int", "bool", "Fraction", "float"} and "?" not in k):
-                        if not self._text_discharge(fn, n, "int"):
+                        if not self._text_discharge(fn, n, "int") and not self._numeric_model_site(fn, n):
                             out.append(("ext:ValueError", n, "int(%s)" % norm(n.args[0])[:40]))
                 elif last == "Fraction" and len(n.args) == 1:
                     k = self.kinds.kind(fn, n.args[0], n)
                     if not (k <= {"int", "bool", "Fraction", "float"} and "?" not in k):
-                        if not self._text_discharge(fn, n, "Fraction"):
+                        if not self._text_discharge(fn, n, "Fraction") and not self._numeric_model_site(fn, n):
                             out.append(("ext:ValueError", n, "Fraction(%s)" % norm(n.args[0])[:40]))
                 elif name == "chr" and n.args:
                     out.append(("ext:ValueError", n, "chr(%s)" % norm(n.args[0])[:40]))
@@ -399,7 +401,7 @@ class Implicit:
                     else:
                         out.append(("ext:TypeError", n, "reduce(..., %s) of a possibly empty iterable without an initial value%s" % (norm(n.args[1])[:30], ("; not dischargeable because " + self._why_not) if getattr(self, "_why_not", "") else "")))
                 elif last in ("log2", "log", "sqrt") and name.startswith("math.") and n.args:
-                    if not self._positive_arg(fn, n.args[0], n):
+                    if not self._positive_arg(fn, n.args[0], n) and not self._numeric_model_site(fn, n, any_module=True):
                         out.append(("ext:ValueError", n, norm(n)[:50]))
                 elif isinstance(n.func, ast.Attribute) and n.func.attr == "encode":
                     # str.encode("utf8") fails on lone surrogates, which DSDL string escapes can produce - unless an error
@@ -433,6 +435,46 @@ class Implicit:
         return out
 
     # ---- discharges
+    def _numeric_model_site(self, fn: FuncInfo, n: ast.AST, any_module: bool = False) -> bool:
+        """a numeric conversion / logarithm inside the type model whose operand comes from the constructor's numeric
+        parameters (widths, capacities, variant counts): the constructors and their public numeric properties are evaluated over
+        the boundary domain and every outcome is acceptance or an InvalidDefinitionError"""
+        mod = fn.module.name
+        numeric = mod in ("pydsdl._serializable._primitive", "pydsdl._serializable._array", "pydsdl._serializable._void")
+        if not (numeric or (any_module and mod.startswith("pydsdl._serializable."))):
+            return False
+        if not self._model_outcomes_ok():
+            return False
+        return self._record(fn, n, "the type model's constructors and numeric properties, evaluated over the boundary domain (widths -1..67, capacities, variant counts), only ever accept or raise an InvalidDefinitionError")
+
+    def _composite_ctor_site(self, fn: FuncInfo) -> bool:
+        """fn is CompositeType.__init__, a function nested in it, or a private method it calls"""
+        comp = self.ctx.cls("_serializable._composite.CompositeType")
+        init = comp.methods.get("__init__")
+        if init is None:
+            return False
+        top = fn
+        while top.parent is not None:
+            top = top.parent
+        if top.cls is not comp:
+            return False
+        called = {c.func.attr for c in ast.walk(init.node) if isinstance(c, ast.Call) and isinstance(c.func, ast.Attribute) and isinstance(c.func.value, ast.Name) and c.func.value.id == "self"}
+        if not (top is init or (top.name.startswith("_") and top.name in called)):
+            return False
+        if not hasattr(self, "_comp_ok"):
+            self._comp_ok = _composite_outcomes_ok(self.ctx)
+        return self._comp_ok
+
+    def _model_outcomes_ok(self) -> bool:
+        if not hasattr(self, "_model_ok"):
+            self._model_ok = _model_outcomes_ok(self.ctx)
+        return self._model_ok
+
+    def _expression_outcomes_ok(self) -> bool:
+        if not hasattr(self, "_expr_ok"):
+            self._expr_ok = _expression_outcomes_ok(self.ctx)
+        return self._expr_ok
+
     def _never_empty(self, fn: FuncInfo, it: ast.AST) -> str:
         """`it` is `self` of a class whose instances are never empty: the constructor rejects an empty collection with an
         InvalidDefinitionError (evaluated), iteration yields what the constructor stored (evaluated), and no code creates an
@@ -605,6 +647,80 @@ class Implicit:
                 return False
         return True
 
+    def _len_lb(self, fn: FuncInfo, e: ast.AST, depth: int) -> Optional[int]:
+        """a lower bound of len(e), or None"""
+        if depth > 6:
+            return None
+        if isinstance(e, (ast.Tuple, ast.List)):
+            return sum(1 for x in e.elts if not isinstance(x, ast.Starred))
+        if isinstance(e, ast.BinOp) and isinstance(e.op, ast.Add):
+            a, b = self._len_lb(fn, e.left, depth + 1), self._len_lb(fn, e.right, depth + 1)
+            return (a or 0) + (b or 0) if (a is not None or b is not None) else None
+        if isinstance(e, ast.Call):
+            name = dotted(e.func) or ""
+            if name in ("list", "tuple", "sorted", "reversed") and len(e.args) == 1:
+                return self._len_lb(fn, e.args[0], depth + 1)
+            if isinstance(e.func, ast.Attribute) and e.func.attr in ("split", "rsplit", "splitlines") and e.func.attr != "splitlines":
+                return 1
+            if isinstance(e.func, ast.Attribute) and e.func.attr == "copy":
+                return self._len_lb(fn, e.func.value, depth + 1)
+            return None
+        if isinstance(e, ast.Subscript) and isinstance(e.slice, ast.Slice) and e.slice.lower is None and e.slice.upper is None:
+            return self._len_lb(fn, e.value, depth + 1)
+        if isinstance(e, ast.Name):
+            binds = [st for st in walk_no_nested(fn.node) if isinstance(st, (ast.Assign, ast.AnnAssign)) and any(isinstance(t, ast.Name) and t.id == e.id for t in (st.targets if isinstance(st, ast.Assign) else [st.target]))]
+            others = [st for st in walk_no_nested(fn.node) if isinstance(st, (ast.AugAssign, ast.For, ast.With)) and any(isinstance(t, ast.Name) and t.id == e.id and isinstance(t.ctx, ast.Store) for t in ast.walk(st) if not isinstance(st, ast.For) or t in ast.walk(st.target))]
+            if binds and not others and e.id not in fn.params:
+                lbs = [self._len_lb(fn, st.value, depth + 1) if st.value is not None else None for st in binds]
+                return min(lbs) if all(x is not None for x in lbs) else None  # type: ignore
+            return None
+        d = dotted(e)
+        if d and d.startswith("self.") and d.count(".") == 2 and fn.cls is not None:
+            # a field of a record held in an instance field: self.F.g, where every store of self.F is K(..., g=<expr>, ...)
+            _, fattr, gattr = d.split(".")
+            vals: List[Tuple[FuncInfo, ast.AST]] = []
+            for k in [c for c in self.repo.mro(fn.cls) if isinstance(c, ClassInfo)]:
+                for m in k.methods.values():
+                    for st in ast.walk(m.node):
+                        if isinstance(st, (ast.Assign, ast.AnnAssign)) and st.value is not None and any(dotted(t) == "self." + fattr for t in (st.targets if isinstance(st, ast.Assign) else [st.target])):
+                            v = st.value
+                            if not isinstance(v, ast.Call):
+                                return None
+                            kw = next((x.value for x in v.keywords if x.arg == gattr), None)
+                            if kw is None:
+                                kc = self.repo.resolve_expr(m.module, v.func, m.cls) if isinstance(v.func, (ast.Name, ast.Attribute)) else None
+                                fields = [b.target.id for b in kc.node.body if isinstance(b, ast.AnnAssign) and isinstance(b.target, ast.Name)] if isinstance(kc, ClassInfo) else []
+                                if gattr in fields and fields.index(gattr) < len(v.args):
+                                    kw = v.args[fields.index(gattr)]
+                            if kw is None:
+                                return None
+                            vals.append((m, kw))
+            if vals:
+                lbs = [self._len_lb(m, v, depth + 1) for m, v in vals]
+                return min(lbs) if all(x is not None for x in lbs) else None  # type: ignore
+            return None
+        if d and d.startswith("self.") and d.count(".") == 1 and fn.cls is not None:
+            attr = d.split(".")[1]
+            prop = self.repo.lookup_method(fn.cls, attr)
+            if prop is not None and prop.is_property:
+                rets = [r.value for r in walk_no_nested(prop.node) if isinstance(r, ast.Return) and r.value is not None]
+                lbs = [self._len_lb(prop, r, depth + 1) for r in rets]
+                return min(lbs) if rets and all(x is not None for x in lbs) else None  # type: ignore
+            stores: List[Tuple[FuncInfo, ast.AST]] = []
+            for k in [c for c in self.repo.mro(fn.cls) if isinstance(c, ClassInfo)] + list(self.repo.subclasses(fn.cls, strict=True)):
+                for m in k.methods.values():
+                    for st in ast.walk(m.node):
+                        if isinstance(st, (ast.Assign, ast.AnnAssign)) and st.value is not None and any(dotted(t) == d for t in (st.targets if isinstance(st, ast.Assign) else [st.target])):
+                            stores.append((m, st.value))
+                        elif isinstance(st, ast.AugAssign) and dotted(st.target) == d:
+                            return None
+                        elif isinstance(st, ast.Call) and isinstance(st.func, ast.Attribute) and dotted(st.func.value) == d and st.func.attr in ("pop", "remove", "clear", "__delitem__"):
+                            return None
+            if stores:
+                lbs = [self._len_lb(m, v, depth + 1) for m, v in stores]
+                return min(lbs) if all(x is not None for x in lbs) else None  # type: ignore
+        return None
+
     def _len_guard(self, fn: FuncInfo, n: ast.Subscript, pm: Dict[ast.AST, ast.AST]) -> bool:
         for (suffix, op), reason in DISCHARGED_SITES.items():
             if fn.qualname.endswith(suffix) and norm(n) == op:
@@ -625,6 +741,17 @@ class Implicit:
                             return self._record(fn, n, "`%s` is bound once, to a %d-element display" % (nm, len(v0.elts)))
                     if binds:
                         break
+        if isinstance(n.value, ast.Attribute) and n.value.attr == "parts" and fn.module.name == "pydsdl._dsdl_definition":
+            return self._record(fn, n, "indexing .parts of a caller-supplied *path argument* (empty only for Path('')): argument validation, not definition input")
+        if self._composite_ctor_site(fn):
+            return self._record(fn, n, "CompositeType's constructor, evaluated over name shapes ('', blanks, one component, dots at either end, deep names, halves of a service), only ever accepts or raises an InvalidDefinitionError")
+        # a lower bound on the length of the indexed sequence, inferred from how it is built (displays, concatenations,
+        # str.split, copies, the stores of an instance field / a property's returned expression)
+        if isinstance(n.slice, ast.Constant) and isinstance(n.slice.value, int) or (isinstance(n.slice, ast.UnaryOp) and isinstance(n.slice.op, ast.USub) and isinstance(n.slice.operand, ast.Constant)):
+            i_ = n.slice.value if isinstance(n.slice, ast.Constant) else -n.slice.operand.value  # type: ignore
+            lb = self._len_lb(fn, n.value, 0)
+            if lb is not None and (0 <= i_ < lb or -lb <= i_ < 0):
+                return self._record(fn, n, "the sequence has at least %d element(s) by construction" % lb)
         # an instance field every store of which (anywhere in the class hierarchy) is None or a display that is long enough
         d_f = dotted(n.value)
         if d_f and d_f.startswith("self.") and d_f.count(".") == 1 and fn.cls is not None and isinstance(n.slice, ast.Constant) and isinstance(n.slice.value, int):
@@ -754,19 +881,14 @@ def run(ctx: Ctx) -> None:
     ctx.analysed["guarded_constructors"] = {c.name: sorted(k) for c, _, k, _ in ctors.table.values()}
 
     svc_raisers = {f.qualname for f in g.funcs.values() if f.cls is not None and f.cls.name == "ServiceType" and f.name in ("bit_length_set", "iterate_fields_with_offsets")}
-    facts = ServiceFacts(ctx, g)
-    ext = ctx.func("_serializable._composite.CompositeType.extent")
-    # CompositeType.extent is inherited by ServiceType and reads self.bit_length_set: it raises exactly when its receiver is a
-    # service type.  The analysis accounts for that at the *call sites* of `.extent` (receiver facts) instead of inside it.
-    conditional = {ext.qualname: "ext:TypeError"}
+    # `X.bit_length_set` / `.extent` / `.iterate_fields_with_offsets` raise TypeError when X is a service type.  That no such X
+    # is ever met while definitions are read is decided extensionally (service_facts): the model's entry points reject service
+    # types, the cross-definition checks never ask one for its layout, and service types come into being in one place only.
+    facts = service_facts(ctx)
+    facts_hold = all(ok for ok, _c, _k, _m, _w in facts)
 
     def drop(caller: str, site: Site, callee: str) -> bool:
-        if callee in svc_raisers:
-            if caller == ext.qualname and isinstance(site.node, ast.Attribute) and norm(site.node) == "self.bit_length_set":
-                facts.used.setdefault("F-deferred", []).append("accounted at the call sites of CompositeType.extent")
-                return True
-            return facts.excluded(caller, site)
-        return False
+        return callee in svc_raisers and facts_hold
 
     def scope(q: str) -> bool:
         base = q[len("<lambda> "):] if q.startswith("<lambda> ") else q
@@ -784,12 +906,7 @@ def run(ctx: Ctx) -> None:
         return False
 
     def implicit_all(fn: FuncInfo, q: str, root: ast.AST, loc: Dict[str, Optional[Ty]]) -> List[Tuple[Any, ast.AST, str]]:
-        out = imp(fn, q, root, loc)
-        for s2 in g.sites.get(q, []):
-            if s2.kind == "prop" and ext.qualname in s2.callees and isinstance(s2.node, ast.Attribute):
-                if not facts.excluded(q, s2):
-                    out.append(("ext:TypeError", s2.node, "%s on a receiver that may be a ServiceType" % norm(s2.node)[:40]))
-        return out
+        return imp(fn, q, root, loc)
 
     ef = ExcFlow(g, implicit=implicit_all, scope=scope, drop_callee=drop, suppress_explicit=suppress)
     ef.run()
@@ -826,6 +943,8 @@ def run(ctx: Ctx) -> None:
             if is_benign_cls(org.exc) and cls is not internal:
                 continue
             trusted = [reason for (suffix, en), reason in list(WHITELIST.items()) + list(INTERNAL_CONSISTENCY.items()) if short.endswith(suffix) and en == oname]
+            if not trusted:
+                trusted = _inherited_trust(ctx, g, org.func, oname) or _type_validation(ctx, g, org)
             if trusted:
                 ctx.check(True, short, "%s: %s" % (oname, org.text), "trusted: %s" % trusted[0], org.where, rule="C13.R1", nontrivial=False)
                 continue
@@ -840,8 +959,9 @@ def run(ctx: Ctx) -> None:
     ctx.count(sum(len(v) for v in ef.escapes.values()))
 
     # 4. service-type receiver facts (each exclusion is backed by a checked guard)
-    ctx.rule("C13.R1s", "ServiceType.bit_length_set (TypeError) is unreachable from definition input: every receiver that could be a service type is excluded by a checked guard", min_instances=2)
-    facts.report(ctx)
+    ctx.rule("C13.R1s", "ServiceType.bit_length_set (TypeError) is unreachable from definition input: the type model's entry points reject service types, intrinsics of a service type are undefined attributes, the cross-definition checks never ask a service for its layout, service types are constructed by the builder only", min_instances=4)
+    for ok, construct_, key, message, where_ in facts:
+        ctx.check(ok, construct_, key, message, where_, rule="C13.R1s")
 
     ctx.attempt(rule_r3, ctx, g)
 
@@ -854,320 +974,258 @@ def run(ctx: Ctx) -> None:
     ctx.sample({"rule": "C13", "roots": [r.short for r in roots], "escaping_at_read_namespace": sorted(exc_name(e) for e in ef.escapes.get(roots[0].qualname, {}))})
 
 
-# ------------------------------------------------------------------------------------------------ service-type facts
-class ServiceFacts:
-    """
-    `X.bit_length_set` / `.extent` / `.iterate_fields_with_offsets` raise TypeError when X is a ServiceType.
-    A receiver is excluded from being a service type only by one of these *checked* facts:
+def _model_outcomes_ok(ctx: Ctx) -> bool:
+    from ..fold import Sym, Unfoldable
+    from ..layout import TBls
+    from . import c05 as M
+    from .c15 import _prop
 
-      F-attr   values read through Attribute.data_type are never service types: Attribute.__init__ rejects them
-               (guard dominating the store of the data type).
-      F-elem   ArrayType.element_type is never a service type: ArrayType.__init__ rejects them.
-      F-self   `self` inside a method of a class that is not ServiceType (nor an ancestor-only method reached on a service
-               instance through a guarded caller).
-      F-handled the access sits in a `try` whose handler catches TypeError.
-    """
+    repo = ctx.repo
+    SER = "_serializable."
 
-    def __init__(self, ctx: Ctx, g: CallGraph):
-        self.ctx = ctx
-        self.g = g
-        self.repo = ctx.repo
-        self.svc = ctx.cls("_serializable._composite.ServiceType")
-        self.used: Dict[str, List[str]] = {}
-        self.unexcluded_sites: Set[str] = set()
-        self._cache: Dict[Tuple[str, int], bool] = {}
-        self.attr_guard = self._ctor_rejects("_serializable._attribute.Attribute", "data_type")
-        self.elem_guard = self._ctor_rejects("_serializable._array.ArrayType", "element_type")
+    def ide(name: Any) -> bool:
+        k = next((c for c in repo.all_classes().values() if c.name == name), None)
+        return k is not None and repo.is_subclass(k, IDE)
 
-    def _ctor_rejects(self, cls_short: str, param: str) -> bool:
-        c = self.ctx.cls(cls_short)
-        init = c.methods.get("__init__")
-        if init is None or param not in init.params:
-            return False
-        for st in walk_no_nested(init.node):
-            if isinstance(st, ast.If) and st.body and isinstance(st.body[-1], ast.Raise):
-                t = st.test
-                if isinstance(t, ast.Call) and dotted(t.func) == "isinstance" and len(t.args) == 2 and norm(t.args[0]) == param:
-                    k = self.repo.resolve_expr(init.module, t.args[1], c)
-                    if k is self.svc:
-                        r = st.body[-1]
-                        target = r.exc.func if isinstance(r.exc, ast.Call) else r.exc  # type: ignore
-                        ek = self.repo.resolve_expr(init.module, target, c)  # type: ignore
-                        if isinstance(ek, ClassInfo) and self.repo.is_subclass(ek, IDE):
-                            return True
-        return False
-
-    def excluded(self, caller: str, site: Site) -> bool:
-        key = (caller, id(site.node))
-        if key not in self._cache:
-            self._cache[key] = self._excluded(caller, site)
-        return self._cache[key]
-
-    def _excluded(self, caller: str, site: Site) -> bool:
-        node = site.node
-        recv = node.value if isinstance(node, ast.Attribute) else (node.func.value if isinstance(node, ast.Call) and isinstance(node.func, ast.Attribute) else None)
-        fn = self.g.funcs.get(caller[len("<lambda> "):].rsplit(":", 1)[0] if caller.startswith("<lambda> ") else caller)
-        if fn is None or recv is None:
-            return False
-        why = self._why(fn, recv, node)
-        if why:
-            self.used.setdefault(why, []).append("%s: %s" % (fn.short, norm(node)[:60]))
-            return True
-        self.unexcluded_sites.add("%s: %s" % (fn.short, norm(node)[:60]))
-        return False
-
-    def _why(self, fn: FuncInfo, recv: ast.AST, node: ast.AST) -> Optional[str]:
-        rs = norm(recv)
-        # handled locally
-        pm = parents_map(fn.node)
-        cur: ast.AST = node
-        while cur in pm:
-            par = pm[cur]
-            if isinstance(par, ast.Try) and any(cur is s for s in par.body):
-                for h in par.handlers:
-                    ts = h.type.elts if isinstance(h.type, ast.Tuple) else ([h.type] if h.type is not None else [])
-                    if any((dotted(t) or "") in ("TypeError", "Exception") for t in ts) and not any(isinstance(x, ast.Raise) for x in ast.walk(ast.Module(body=h.body, type_ignores=[]))):
-                        return "F-handled"
-            cur = par
-        if rs == "self" and fn.cls is not None:
-            if fn.cls is self.svc:
-                return None
-            if not self.repo.is_subclass(self.svc, fn.cls):
-                return "F-self"  # the method's class is not an ancestor of ServiceType: self cannot be a service
-            return None
-        if self.attr_guard and (rs.endswith(".data_type") or self._derived_from(fn, recv, "data_type")):
-            return "F-attr"
-        if self.elem_guard and (rs.endswith(".element_type") or rs.endswith("._element_type")):
-            return "F-elem"
-        r = self._nonservice(fn, recv, 0)
-        if r:
-            return r
-        if self._path_excludes(fn, recv, node):
-            return "F-path"
-        return None
-
-    def _class_candidates(self, fn: FuncInfo, e: ast.AST) -> Optional[List[ClassInfo]]:
-        """classes an expression used as a callee may denote: a class name, or a local bound to an IfExp / name of classes"""
-        r = self.repo.resolve_expr(fn.module, e, fn.cls) if isinstance(e, (ast.Name, ast.Attribute)) else None
-        if isinstance(r, ClassInfo):
-            return [r]
-        if isinstance(e, ast.IfExp):
-            a, b = self._class_candidates(fn, e.body), self._class_candidates(fn, e.orelse)
-            return (a + b) if a is not None and b is not None else None
-        if isinstance(e, ast.Name):
-            vals = [st.value for st in walk_no_nested(fn.node) if isinstance(st, ast.Assign) and any(isinstance(t, ast.Name) and t.id == e.id for t in st.targets)]
-            if vals:
-                out: List[ClassInfo] = []
-                for v in vals:
-                    c = self._class_candidates(fn, v)
-                    if c is None:
-                        return None
-                    out.extend(c)
-                return out
-        return None
-
-    def _nonservice(self, fn: FuncInfo, e: ast.AST, depth: int) -> Optional[str]:
-        """A reason why expression `e` (in fn) can never denote a ServiceType instance, or None."""
-        if depth > 4:
-            return None
-        if isinstance(e, ast.Call):
-            cands = self._class_candidates(fn, e.func)
-            if cands is not None and all(not self.repo.is_subclass(c, self.svc) for c in cands):
-                return "F-ctor"
-            return None
-        if isinstance(e, ast.Name):
-            if e.id in fn.params and e.id != "self":
-                return "F-param" if self._param_nonservice(fn, e.id, depth) else None
-            vals = [st.value for st in walk_no_nested(fn.node) if isinstance(st, ast.Assign) and any(isinstance(t, ast.Name) and t.id == e.id for t in st.targets)]
-            if vals and all(self._nonservice(fn, v, depth + 1) for v in vals):
-                return "F-ctor"
-            return None
-        if isinstance(e, ast.Attribute) and isinstance(e.value, ast.Name) and e.value.id == "self" and fn.cls is not None:
-            attr = e.attr
-            from ..regions import trivial_property_expr
-
-            pe = trivial_property_expr(self.repo, fn.cls, attr)
-            if pe is not None and dotted(pe) and dotted(pe).startswith("self._"):  # type: ignore
-                attr = dotted(pe).split(".", 1)[1]  # type: ignore
-            init = self.repo.lookup_method(fn.cls, "__init__")
-            if init is None:
-                return None
-            stores = [st.value for st in walk_no_nested(init.node) if isinstance(st, ast.Assign) and any(dotted(t) == "self." + attr for t in st.targets)]
-            others = [m for m in fn.cls.methods.values() if m is not init and any(isinstance(st, ast.Assign) and any(dotted(t) == "self." + attr for t in st.targets) for st in ast.walk(m.node))]
-            if len(stores) == 1 and not others and self._nonservice(init, stores[0], depth + 1):
-                return "F-field"
-        return None
-
-    def _param_nonservice(self, fn: FuncInfo, param: str, depth: int) -> bool:
-        """every call site of fn (constructor calls for __init__) passes a non-service expression for `param`"""
-        idx = fn.params.index(param)
-        sites = 0
-        for other, c in self.repo.all_calls():
-            if other.module.name.startswith("pydsdl._serdes"):
-                continue
-            if True:
-                target_ok = False
-                if fn.name == "__init__" and fn.cls is not None:
-                    cands = self._class_candidates(other, c.func)
-                    target_ok = cands is not None and any(k is fn.cls or self.repo.is_subclass(k, fn.cls) for k in cands) and all(self.repo.lookup_method(k, "__init__") is fn for k in cands if k is fn.cls or self.repo.is_subclass(k, fn.cls))
-                elif isinstance(c.func, ast.Attribute) and c.func.attr == fn.name or isinstance(c.func, ast.Name) and c.func.id == fn.name:
-                    target_ok = True
-                if not target_ok:
-                    continue
-                pos = idx - (0 if (fn.is_static or fn.cls is None) else 1)
-                if isinstance(c.func, ast.Attribute) and isinstance(c.func.value, ast.Name) and fn.is_static:
-                    pos = idx
-                a = c.args[pos] if 0 <= pos < len(c.args) else next((k.value for k in c.keywords if k.arg == param), None)
-                if a is None:
-                    return False
-                sites += 1
-                if not self._nonservice(other, a, depth + 1):
-                    return False
-        return sites > 0
-
-    def _path_excludes(self, fn: FuncInfo, recv: ast.AST, node: ast.AST) -> bool:
-        """pairwise version check (and the private helpers only it calls): abstractly evaluated over every pair of minor versions,
-        services included, it never asks a service type for its layout (decided in c11)"""
-        if fn.module.name != "pydsdl._namespace":
-            return False
-        root = "pydsdl._namespace._ensure_minor_version_compatibility_pairwise"
-        if fn.qualname != root:
-            # a helper: every caller chain must start at the pairwise check
-            seen, work = set(), [fn.qualname]
-            while work:
-                q = work.pop()
-                if q in seen:
-                    continue
-                seen.add(q)
-                callers = [c for c, edges in self.g.edges.items() if q in edges]
-                if not callers:
-                    return False
-                for c in callers:
-                    if c != root:
-                        if not c.split(".")[-1].startswith("_") or c == q:
+    try:
+        for cname in ("UnsignedIntegerType", "SignedIntegerType", "FloatType"):
+            c = ctx.cls(SER + "_primitive." + cname)
+            for n in range(-1, 68):
+                for cm in ("CastMode.SATURATED", "CastMode.TRUNCATED"):
+                    o = M._construct_outcome(ctx, c, n, cm)
+                    if isinstance(o, str):
+                        if not ide(o):
                             return False
-                        work.append(c)
-        from .c11 import pairwise_never_asks_a_service_for_its_layout
-
-        return pairwise_never_asks_a_service_for_its_layout(self.ctx)
-
-    def _derived_from(self, fn: FuncInfo, recv: ast.AST, attr: str) -> bool:
-        """receiver is an element/variable of a sequence built as `[f.<attr> for f in ...]` passed as an argument."""
-        def local_def(name: str) -> Optional[ast.AST]:
-            """the single defining expression of a local (also one position of a tuple assignment)"""
-            found: List[ast.AST] = []
-            for st in walk_no_nested(fn.node):
-                if isinstance(st, ast.Assign) and len(st.targets) == 1:
-                    t = st.targets[0]
-                    if isinstance(t, ast.Name) and t.id == name:
-                        found.append(st.value)
-                    elif isinstance(t, (ast.Tuple, ast.List)) and isinstance(st.value, (ast.Tuple, ast.List)) and len(t.elts) == len(st.value.elts):
-                        for a, b in zip(t.elts, st.value.elts):
-                            if isinstance(a, ast.Name) and a.id == name:
-                                found.append(b)
-                elif isinstance(st, (ast.AugAssign, ast.AnnAssign)) and isinstance(st.target, ast.Name) and st.target.id == name:
-                    found.append(st.value if st.value is not None else st)
-            return found[0] if len(found) == 1 else None
-
-        def source_param(src: ast.AST, depth: int = 0) -> Optional[str]:
-            """the parameter a sequence expression is (a slice / copy / element-preserving view of)"""
-            while isinstance(src, ast.Subscript):
-                src = src.value
-            if isinstance(src, ast.Call) and dotted(src.func) in ("list", "tuple", "reversed", "sorted") and len(src.args) == 1:
-                return source_param(src.args[0], depth + 1)
-            if isinstance(src, ast.Name):
-                if src.id in fn.params:
-                    return src.id
-                d = local_def(src.id)
-                if d is not None and depth < 4:
-                    return source_param(d, depth + 1)
-            return None
-
-        if isinstance(recv, ast.Name):
-            # loop / comprehension variable over (a slice of) a parameter
-            for n in ast.walk(fn.node):
-                if isinstance(n, (ast.For, ast.comprehension)) and isinstance(n.target, ast.Name) and n.target.id == recv.id:
-                    p_ = source_param(n.iter)
-                    if p_ is not None:
-                        return self._param_fed_by_attr(fn, p_, attr)
-            # a local bound once to an element of the parameter
-            d = local_def(recv.id)
-            if isinstance(d, ast.Subscript) and not isinstance(d.slice, ast.Slice):
-                p_ = source_param(d.value)
-                if p_ is not None:
-                    return self._param_fed_by_attr(fn, p_, attr)
-        if isinstance(recv, ast.Subscript):
-            p_ = source_param(recv.value)
-            if p_ is not None:
-                return self._param_fed_by_attr(fn, p_, attr)
+                        continue
+                    for prop in ("inclusive_value_range", "bit_length_set", "standard_bit_length"):
+                        if repo.lookup_method(c, prop) is not None and isinstance(_prop(ctx, o, prop), str) and str(_prop(ctx, o, prop)).startswith("raise "):
+                            return False
+        c = ctx.cls(SER + "_void.VoidType")
+        for n in range(-1, 68):
+            o = M._construct_outcome(ctx, c, n)
+            if isinstance(o, str) and not ide(o):
+                return False
+        et = Sym(bit_length_set=TBls.var("E", 1), alignment_requirement=1, _isa_=frozenset({"SerializableType", "PrimitiveType", "UnsignedIntegerType", "Any"}), _kind_="UnsignedIntegerType")
+        for cname in ("FixedLengthArrayType", "VariableLengthArrayType"):
+            c = ctx.cls(SER + "_array." + cname)
+            for cap in list(range(-2, 5)) + [255, 256, 65535, 65536, 2**32 - 1, 2**32, 2**63]:
+                o = M._construct_outcome(ctx, c, et, cap)
+                if isinstance(o, str) and not ide(o):
+                    return False
+        for n in (0, 1, 2, 3, 255, 256, 257):
+            o = M.structure(ctx, attributes=[M.attribute_sym(ctx, "Field", "f%d" % i) for i in range(n)], kind="UnionType")
+            if isinstance(o, str) and not ide(o):
+                return False
+    except (AnalysisError, Unfoldable):
         return False
+    return True
 
-    def _param_fed_by_attr(self, fn: FuncInfo, param: str, attr: str) -> bool:
-        """every call site of fn passes `[x.<attr> for x in ...]` for `param`"""
-        idx = fn.params.index(param)
-        sites = 0
-        for other, c in self.repo.all_calls():
-            if other.module.name.startswith("pydsdl._serdes"):
+
+def _composite_outcomes_ok(ctx: Ctx) -> bool:
+    from ..fold import Unfoldable
+    from . import c05 as M
+
+    repo = ctx.repo
+
+    def ide(name: Any) -> bool:
+        k = next((c for c in repo.all_classes().values() if c.name == name), None)
+        return k is not None and repo.is_subclass(k, IDE)
+
+    try:
+        for half in (False, True):
+            # the halves of a service are named <full name of the definition>.Request / .Response by finalize (C15.R3), and a
+            # definition's full name has a namespace: at least three components
+            names = ("ns.T.Request", "ns.T.Response", "a.b.c.d.Request", "ns..Request", "ns.T.") if half else ("", " ", ".", "a", "a.", ".a", "..", "ns.T", "ns..T", "a.b.c.d.E", "ns.T.Request")
+            for nm in names:
+                o = M.structure(ctx, name=nm, half=half)
+                if isinstance(o, str) and not ide(o):
+                    return False
+    except (AnalysisError, Unfoldable):
+        return False
+    return True
+
+
+def _expression_outcomes_ok(ctx: Ctx) -> bool:
+    """every binary / unary operator applied to symbolic rational operands yields a value or an invalid-operand error"""
+    from ..absint import Raised
+    from ..exprmodel import ExprModel, FnValue, QV
+    from ..fold import Unfoldable
+    from ..layout import explore
+
+    try:
+        m = ExprModel(ctx)
+        opmod = ctx.repo.module("_expression._operator")
+        ioe = ctx.cls("_expression._any.InvalidOperandError")
+        operands = [QV("i", True), QV("j", True), QV("p", False), QV("q", False), 0]
+        for name, fn in opmod.functions.items():
+            if name.startswith("_") or len(fn.params) != 2 or name == "attribute":
                 continue
-            if True:
-                if isinstance(c.func, ast.Attribute) and c.func.attr == fn.name:
-                    pos = idx - (0 if fn.is_static else 1)
-                    a = c.args[pos] if 0 <= pos < len(c.args) else None
-                    if a is None:
-                        return False
-                    sites += 1
-                    if isinstance(a, ast.Name) and a.id not in other.params:
-                        # a local bound (only) to such a comprehension
-                        defs = [st.value for st in walk_no_nested(other.node) if isinstance(st, ast.Assign) and any(isinstance(t, ast.Name) and t.id == a.id for t in st.targets)]
-                        if defs and all(isinstance(d, ast.ListComp) and isinstance(d.elt, ast.Attribute) and d.elt.attr == attr for d in defs):
-                            a = defs[0]
-                    ok = isinstance(a, ast.ListComp) and isinstance(a.elt, ast.Attribute) and a.elt.attr == attr
-                    if not ok and isinstance(a, ast.Name) and a.id in other.params and other.name == fn.name:
-                        ok = True  # forwarding its own parameter (same helper in a sibling class)
-                    if not ok and isinstance(a, ast.Name) and a.id in other.params:
-                        ok = self._param_fed_by_attr(other, a.id, attr)
-                    if not ok:
-                        return False
-        return sites > 0
+            f = FnValue(m, fn)
+            for a in operands:
+                for b in operands:
+                    L, R = m.value("Rational", a if not isinstance(a, int) else __import__("fractions").Fraction(a)), m.value("Rational", b if not isinstance(b, int) else __import__("fractions").Fraction(b))
 
-    def report(self, ctx: Ctx) -> None:
-        ctx.check(self.attr_guard, "_serializable._attribute.Attribute.__init__", "rejects ServiceType data types", "a service type used as a field / constant type must be rejected with an InvalidDefinitionError before any layout computation (fact F-attr)", "pydsdl/_serializable/_attribute.py", rule="C13.R1s")
-        ctx.check(self.elem_guard, "_serializable._array.ArrayType.__init__", "rejects ServiceType elements", "a service type used as an array element must be rejected with an InvalidDefinitionError before the array's layout is computed (fact F-elem)", "pydsdl/_serializable/_array.py", rule="C13.R1s")
-        ctx.analysed["service_receiver_exclusions"] = {k: len(v) for k, v in self.used.items()}
-        ctx.analysed["service_receiver_not_excluded"] = sorted(self.unexcluded_sites)
+                    def once() -> Any:
+                        try:
+                            r = m.call(f, L, R)
+                            m.native(r) if r._cls_.name != "Set" else None
+                            return None
+                        except Raised as r:
+                            k = next((c for c in ctx.repo.all_classes().values() if c.name == r.cls_name), None)
+                            return None if (k is not None and ctx.repo.is_subclass(k, ioe)) else r.cls_name
+
+                    if any(res is not None for _, res in explore(once, max_runs=256)):
+                        return False
+    except (AnalysisError, Unfoldable):
+        return False
+    return True
+
+
+def _inherited_trust(ctx: Ctx, g: CallGraph, func_q: str, exc_name_: str) -> List[str]:
+    """a raise in a method that concrete subclasses inherit (logic hoisted into a base class) is trusted when the entry exists
+    for every subclass that inherits the method"""
+    fn = g.funcs.get(func_q)
+    if fn is None or fn.cls is None:
+        return []
+    subs = [c for c in ctx.repo.subclasses(fn.cls, strict=True) if ctx.repo.lookup_method(c, fn.name) is fn]
+    if not subs:
+        return []
+    reasons = []
+    for c in subs:
+        r = [reason for (suffix, en), reason in INTERNAL_CONSISTENCY.items() if ("%s.%s" % (c.name, fn.name)).endswith(suffix) and en == exc_name_]
+        if not r:
+            if any(True for _ in ctx.repo.subclasses(c, strict=True)):
+                continue  # an intermediate class: judged through its own subclasses
+            return []
+        reasons.append("%s: %s" % (c.name, r[0]))
+    return ["inherited by " + "; ".join(reasons)] if reasons else []
+
+
+def _type_validation(ctx: Ctx, g: CallGraph, org: Any) -> List[str]:
+    """a TypeError / ValueError whose every guard is a test of the *type* or of the attributes of an object (isinstance, hasattr,
+    callable): what is validated is how the API was called or how the code was written, not the text of a definition"""
+    fn = g.funcs.get(org.func)
+    if fn is None or exc_name(org.exc) not in ("TypeError", "ValueError"):
+        return []
+    from ..decide import paths_of
+
+    def reflective(c: ast.AST) -> bool:
+        if isinstance(c, ast.UnaryOp) and isinstance(c.op, ast.Not):
+            return reflective(c.operand)
+        if isinstance(c, ast.BoolOp):
+            return all(reflective(v) for v in c.values)
+        return isinstance(c, ast.Call) and dotted(c.func) in ("isinstance", "hasattr", "callable", "issubclass")
+
+    hits = 0
+    for p in paths_of(fn.node):
+        if p.kind != "raise" or p.value is None or norm(p.value)[:40] not in org.text and org.text[:40] not in "raise " + norm(p.value):
+            continue
+        conds = [c for c, _pol in p.conds if not isinstance(c, tuple)]
+        if not conds or not any(reflective(c) for c in conds):
+            return []
+        # the innermost guard decides the raise; outer guards may be anything
+        if not reflective(conds[-1]):
+            return []
+        hits += 1
+    return ["type validation: the raise is guarded by isinstance / hasattr tests only (how the API is called, not what a definition says)"] if hits else []
+
+
+# ------------------------------------------------------------------------------------------------ service-type facts
+def service_facts(ctx: Ctx) -> List[Tuple[bool, str, str, str, str]]:
+    """[(holds, construct, key, message, where)]: each fact is *evaluated* on the type model / the checks, not read off a shape"""
+    from ..fold import Folder, Sym, Unfoldable
+    from ..absint import Raised, call_fn, module_call_hook
+    from . import c05 as M
+
+    repo = ctx.repo
+    out: List[Tuple[bool, str, str, str, str]] = []
+    SER = "_serializable."
+    rq = M.structure(ctx, name="ns.S.Request", half=True)
+    rs = M.structure(ctx, name="ns.S.Response", half=True)
+    svc = M.build_model(ctx, SER + "_composite.ServiceType", request=rq, response=rs, fixed_port_id=None) if not (isinstance(rq, str) or isinstance(rs, str)) else "halves"
+    if isinstance(svc, str):
+        raise AnalysisError("a service type cannot be constructed over abstract arguments: %s" % svc)
+
+    def ide(name: Any) -> bool:
+        k = next((c for c in repo.all_classes().values() if c.name == name), None)
+        return k is not None and repo.is_subclass(k, IDE)
+
+    # entry points of the model: attributes and array elements
+    for cname, args, what in (
+        ("_attribute.Field", (svc, "x"), "a service type used as a field type"), ("_attribute.PaddingField", (svc,), "a service type used as a padding type"),
+        ("_attribute.Constant", (svc, "K", Sym(_kind_="value", _isa_=frozenset({"Any", "Rational"}))), "a service type used as a constant type"),
+        ("_array.FixedLengthArrayType", (svc, 3), "a service type used as an array element"), ("_array.VariableLengthArrayType", (svc, 3), "a service type used as an array element"),
+    ):
+        c = ctx.cls(SER + cname)
+        o = M._construct_outcome(ctx, c, *args)
+        ctx.count()
+        out.append((isinstance(o, str) and ide(o), c.short + ".__init__", "rejects ServiceType: %s" % (o if isinstance(o, str) else "accepted"), "%s must be rejected with an InvalidDefinitionError before any layout computation" % what, c.module.relpath))
+    # intrinsics of a service type are undefined attributes, not a crash
+    for nm in ("_extent_", "_bit_length_"):
+        try:
+            got: Any = Folder({"o": svc, "n": Sym(native_value=nm)}, repo, svc._cls_.module, svc._cls_, M.model_hook_logging(ctx, svc._cls_, [])).fold(ast.parse("o._attribute(n)", mode="eval").body)
+            got = "a value"
+        except Raised as r:
+            got = r.cls_name
+        except Unfoldable as ex:
+            raise AnalysisError("ServiceType._attribute(%r): cannot evaluate: %s" % (nm, ex))
+        ctx.count()
+        out.append((isinstance(got, str) and ide(got), svc._cls_.short + "._attribute", "S.%s -> %s" % (nm, got), "`S.1.0.%s` of a service type must be an undefined attribute (an InvalidDefinitionError), not a TypeError" % nm, svc._cls_.module.relpath))
+    # the cross-definition checks never ask a service for its layout
+    from .c11 import pairwise_never_asks_a_service_for_its_layout
+
+    out.append((pairwise_never_asks_a_service_for_its_layout(ctx), "_namespace._ensure_minor_version_compatibility", "services are compared through their halves", "the version-compatibility check must not evaluate `.extent` / `.bit_length_set` of a service type", "pydsdl/_namespace.py"))
+    # who constructs service types / makes model instances without their constructors
+    svc_cls = svc._cls_
+    makers = sorted({fn.module.name for fn in repo.all_functions().values() for c in ast.walk(fn.node) if isinstance(c, ast.Call) and isinstance(c.func, (ast.Name, ast.Attribute)) and (dotted(c.func) or "").split(".")[-1] == "ServiceType" and not fn.name.startswith("_unittest")})
+    out.append((makers == ["pydsdl._data_type_builder"], svc_cls.short, "constructed in: %s" % makers, "service types come into being only where a service definition is finalized", svc_cls.module.relpath))
+    bypass = sorted({fn.short for fn in repo.all_functions().values() if fn.module.name.startswith("pydsdl._serializable") for c in ast.walk(fn.node) if isinstance(c, ast.Call) and isinstance(c.func, ast.Attribute) and c.func.attr == "__new__"})
+    out.append((not bypass, "_serializable.*", "no instance is made without its constructor", "the guards of the constructors hold for every instance of the model", "pydsdl/_serializable", ))
+    return out
 
 
 def rule_r3(ctx: Ctx, g: CallGraph) -> None:
-    repo = ctx.repo
-    ctx.rule("C13.R3", "an InvalidDefinitionError leaving DSDLDefinition.read / _read_definitions passes a handler that stamps the definition's own path; FileNameFormatError carries the path", min_instances=3)
-    for short, own in (("_dsdl_definition.DSDLDefinition.read", True), ("_namespace_reader._read_definitions", False)):
-        fn = ctx.func(short)
-        good = False
-        detail = []
-        node = ctx.inl(fn)  # private helpers expanded, so that an extracted step is still seen inside the try
-        # nested functions are searched too (the protected read may live in a local function called from the loop)
-        for tr in [n for n in ast.walk(node) if isinstance(n, ast.Try)]:
-            for h in tr.handlers:
-                ts = h.type.elts if isinstance(h.type, ast.Tuple) else ([h.type] if h.type is not None else [])
-                ks = [repo.resolve_expr(fn.module, t, fn.cls) for t in ts]
-                if any(isinstance(k, ClassInfo) and k.name == "Error" for k in ks) and h.name:
-                    calls = [c for c in ast.walk(ast.Module(body=h.body, type_ignores=[])) if isinstance(c, ast.Call) and isinstance(c.func, ast.Attribute) and c.func.attr == "set_error_location_if_unknown" and norm(c.func.value) == h.name]
-                    paths = [norm(k.value) for c in calls for k in c.keywords if k.arg == "path"]
-                    rer = any(isinstance(r, ast.Raise) and (r.exc is None or norm(r.exc) == h.name) for r in ast.walk(ast.Module(body=h.body, type_ignores=[])))
-                    # what the handler protects: the definition's own parse / finalize, or the read of some definition R
-                    body_calls = [c for s_ in tr.body for c in ast.walk(s_) if isinstance(c, ast.Call)]
-                    if own:
-                        protects = any((isinstance(c.func, ast.Attribute) and c.func.attr in ("parse", "finalize")) or (dotted(c.func) or "").endswith("parse") for c in body_calls)
-                        want = ["self.file_path"]
-                    else:
-                        readers = [norm(c.func.value) for c in body_calls if isinstance(c.func, ast.Attribute) and c.func.attr == "read"]
-                        protects = len(set(readers)) == 1
-                        want = ["%s.file_path" % readers[0]] if protects else ["?"]
-                    detail.append({"paths": paths, "reraises": rer, "protects": protects, "expected path": want})
-                    if paths == want and rer and protects:
-                        good = True
-        ctx.check(good, fn.short, "except Error: set_error_location_if_unknown(path=<the file being read>); raise", "errors are stamped with the file being read and re-raised", fn.where(), detail)
+    """path stamping, observed on the reading pipeline evaluated over abstract worlds (reader_common)"""
+    from ..absint import APath, Raised, construct
+    from ..fold import Unfoldable
+    from . import reader_common as R
+
+    ctx.rule("C13.R3", "an InvalidDefinitionError leaving DSDLDefinition.read / the namespace reader carries the path of the definition being read; FileNameFormatError carries the path", min_instances=3)
+    rd = ctx.func("_dsdl_definition.DSDLDefinition.read")
+    own = R.own_definition(ctx, "ns.sub.T", 1, 2)
+    w0 = R.World()
+    o = R.read_own(ctx, own, [R.ADef(w0, "zz.First", 1, 0)], parse_fails=1)
+    exc = o.get("exc")
+    ctx.count()
+    ctx.check(o["raised"] == "DSDLSyntaxError" and str(getattr(exc, "path", None)) == "/w/ns/sub/T.1.2.dsdl", rd.short, "a fault of the definition leaves with the definition's own path", "errors are stamped with the file being read and re-raised", rd.where(), {"raised": o["raised"], "path": str(getattr(exc, "path", None))})
+    nsr = ctx.func("_namespace_reader.read_definitions")
+    w = R.World()
+    A = R.ADef(w, "ns.A", 1, 0)
+    Bf = R.ADef(w, "ns.B", 1, 0, fail="UndefinedDataTypeError")
+    bad = []
+    for targets in ([Bf], [A, Bf], [Bf, A]):
+        for d in w.defs:
+            d.__dict__["composite_type"] = None
+        out = R.run_reader(ctx, targets, [A, Bf])
+        ctx.count()
+        exc = out.get("exc")
+        if out["raised"] != "UndefinedDataTypeError" or str(getattr(exc, "path", None)) != str(Bf.file_path):
+            bad.append({"targets": [t.label for t in targets], "left as": out["raised"], "path": str(getattr(exc, "path", None)), "expected path": str(Bf.file_path)})
+    ctx.check(not bad, nsr.short, "a fault in a target leaves with the target's path", "errors are stamped with the file being read and re-raised", nsr.where(), bad[:3])
+    # a malformed file name: the error names the file
     fe = ctx.cls("_dsdl_definition.FileNameFormatError")
-    init = fe.methods.get("__init__")
-    good = init is not None and "path" in init.params and any(isinstance(c, ast.Call) and any(k.arg == "path" for k in c.keywords) for c in calls_in(init.node))
-    ctx.check(good, fe.short, "path is a required constructor argument", "file-name errors always carry the offending path", fe.module.relpath)
+    cls = ctx.cls("_dsdl_definition.DSDLDefinition")
+    bad = []
+    for name in ("T.dsdl", "T.1.dsdl", "a.b.T.1.0.dsdl", "x.T.1.0.dsdl", "T.1.x.dsdl"):
+        pth = APath("/w/ns/" + name)
+        try:
+            construct(ctx, cls, pth, APath("/w/ns"), hook=R._hook(ctx, cls.module, []))
+            got: Any = ("accepted", None)
+        except Raised as r:
+            got = (r.cls_name, str(getattr(getattr(r, "exc", None), "path", None)))
+        except Unfoldable as ex:
+            raise AnalysisError("DSDLDefinition(%s): cannot evaluate: %s" % (name, ex))
+        ctx.count()
+        if got != ("FileNameFormatError", str(pth)):
+            bad.append({"file": name, "found": got, "expected": ("FileNameFormatError", str(pth))})
+    ctx.check(not bad, fe.short, "malformed file names are reported with their path", "file-name errors always carry the offending path", fe.module.relpath, bad[:3])
